@@ -135,76 +135,15 @@ Section States.
         + split; [reflexivity|]. split; [constructor|]. split; [exact Hu|exact Hlp].
         + discriminate. }
     destruct (n_inp inp <=? p)%Z eqn:En.
-    - (* the EOF code point *)
-      unfold input. rewrite here_eof by lia.
-      cbn [SB.c_of hd_error SB.c_is SB.c_is_eof SB.ends_authority orb].
-      change (rune_error =? 64) with false. cbv iota.
-      apply T. exact HR.
-    - (* a code point *)
-      unfold input. rewrite (here_cons inp p) by lia.
-      cbn [SB.c_of hd_error SB.c_is SB.c_is_eof]. unfold SB.ends_authority.
-      cbn [SB.c_is SB.c_is_eof orb].
-      set (r := cp_at inp p).
-      assert (Hr : scalar r) by (apply cp_at_scalar; lia).
-      destruct (r =? 64) eqn:E64.
-      + (* '@' *)
-        rewrite mherr_warn by exact Hfail.
-        rewrite noted_username, noted_password.
-        rewrite (RU.R_username _ _ HR), (RU.R_password _ _ HR).
-        match goal with |- context [cred_loop c (runes ?x)] =>
-          assert (Eb : runes x
-                     = if SB.m_atSignSeen sm then [37;52;48] ++ SB.m_buffer sm else SB.m_buffer sm) end.
-        { rewrite Hat. destruct (SB.m_atSignSeen sm); [|exact Hrunes].
-          rewrite runes_app_ascii_l by (repeat constructor; lia). rewrite Hrunes. reflexivity. }
-        rewrite Eb. rewrite cred_loop_spec.
-        destruct sm as [su sst sbuf sa sbr spw sp].
-        cbn [SB.m_url SB.m_buffer SB.m_state SB.m_pointer SB.m_atSignSeen SB.m_insideBrackets SB.m_passwordTokenSeen
-             SB.set_state SB.set_buffer SB.set_url SB.set_atSignSeen SB.set_passwordTokenSeen] in *.
-        rewrite Hpw.
-        set (l := if sa then [37;52;48] ++ sbuf else sbuf).
-        pose proof (cred_frame_fold l su spw) as Fr.
-        destruct (fold_left SB.authority_code_point l (su, spw)) as [su' pts]. cbn [fst snd] in *.
-        cbn [out_rel SB.m_url SB.m_buffer SB.m_state SB.m_pointer SB.m_atSignSeen SB.m_insideBrackets
-             SB.m_passwordTokenSeen SB.set_state SB.set_buffer SB.set_url SB.set_atSignSeen SB.set_passwordTokenSeen].
-        constructor; unfold mk; cbn [m_state m_ptr m_eof m_buf m_at m_br m_pw m_url st_map st_rel
-             SB.m_url SB.m_buffer SB.m_state SB.m_pointer SB.m_atSignSeen SB.m_insideBrackets SB.m_passwordTokenSeen].
-        * exact Hs.
-        * exact Hp.
-        * lia.
-        * rewrite points_to_eof_spec. lia.
-        * unfold flags_rel. cbn [m_at m_br m_pw SB.m_atSignSeen SB.m_insideBrackets SB.m_passwordTokenSeen].
-          repeat split; [exact Hbr].
-        * split; [reflexivity|]. split; [constructor|]. Show. split; [cbn [length]; lia|]. split.
-          -- apply R_cred; [|exact Fr]. apply R_noted. exact HR.
-          -- unfold list_path, SU.has_opaque_path in *. destruct Fr as [_ [_ [_ [F4 _]]]]. rewrite F4. exact Hlp.
-        * discriminate.
-      + (* not '@' *)
-        assert (Esp : isSpecialSchemeAndBackslash c (m_url mm) r = SB.special sm && (r =? 92)).
-        { unfold isSpecialSchemeAndBackslash, SB.special. rewrite (R_special c _ _ Hspecial HR). reflexivity. }
-        rewrite Esp.
-        destruct ((r =? 47) || (r =? 63) || (r =? 35) || SB.special sm && (r =? 92)) eqn:Et.
-        * (* the authority ends *)
-          apply T. exact HR.
-        * (* append *)
-          cbn [out_rel].
-          destruct sm as [su sst sbuf sa sbr spw sp].
-          cbn [SB.m_url SB.m_buffer SB.m_state SB.m_pointer SB.m_atSignSeen SB.m_insideBrackets SB.m_passwordTokenSeen
-               SB.append_to_buffer SB.set_buffer] in *.
-          constructor; unfold mk; cbn [m_state m_ptr m_eof m_buf m_at m_br m_pw m_url st_map st_rel
-               SB.m_url SB.m_buffer SB.m_state SB.m_pointer SB.m_atSignSeen SB.m_insideBrackets SB.m_passwordTokenSeen].
-          -- exact Hs.
-          -- exact Hp.
-          -- lia.
-          -- rewrite points_to_eof_spec. lia.
-          -- unfold flags_rel. cbn [m_at m_br m_pw SB.m_atSignSeen SB.m_insideBrackets SB.m_passwordTokenSeen].
-             repeat split; assumption.
-          -- split.
-             { rewrite Hbuf, enc_runes_app. unfold encode_runes at 3. cbn [flat_map]. rewrite app_nil_r. reflexivity. }
-             split.
-             { apply Forall_app. split; [exact Hsc|]. constructor; [exact Hr|constructor]. }
-             split; [rewrite app_length; cbn [length]; lia|]. split; [exact HR|exact Hlp].
-          -- discriminate.
-  Qed.
+    - assert (G : (n_inp inp <= p)%Z).
+      Time lia.
+      Undo.
+      Time (clear T; lia).
+      Undo.
+      Time (clear - En; lia).
+      Undo.
+      Time (clear Hinp; lia).
+      Undo.
+      Time (clear T Hrunes Hnil Hbuf; lia).
+Abort.
 End States.
-
-Print Assumptions sim_authority.
